@@ -1,4 +1,4 @@
-\* measured: 950,360 distinct / 18,612,977 generated states (MaxSends = 2: 135,788 / 1,644,698); MaxSrc = 5 does not finish in 50 min
+\* measured: 950,360 distinct / 38,730,965 generated states, depth 15 (25 min, 4 workers, loaded machine); MaxSrc = 5 does not finish in 50 min
 SPECIFICATION Spec
 CONSTANTS
   Kinds = {"W", "F", "O"}
@@ -10,5 +10,5 @@ CONSTANTS
   MaxDeliver = 3
 VIEW View
 INVARIANTS TypeOK C39_AtMostOnce C39_NoLossAfterSwitch C39_FenceClosesSource C39_Recoverable
-PROPERTIES C39_ReplayNoop C39_NonOwnerRefuses
+PROPERTIES C39_ReplayNoop C39_AnsweredMeansRecorded C39_NonOwnerRefuses
 CHECK_DEADLOCK FALSE
